@@ -9,7 +9,7 @@ V = os.path.dirname(os.path.dirname(os.path.abspath(__file__)))
 CHECKS = {
     "C03": ("model_checking",
             "explicit construction of the exact transition matrix of the real RWM one-step kernel on finite lattices (every cell x every innovation symbol x redraw continuation) with a detailed-balance check per landscape; "
-            "for tpCN, extraction of the proposal law from the real _propose under a scripted tape, validation on the tape lattice, and comparison of the real acceptance factor with the Metropolis-Hastings ratio for every ordered grid pair; tape-lattice enumeration for hard walls and image-sum detailed balance for folds; scripted mixing variables honour their size (a proposal using several independently is reported); mode statistics also reach the kernel through pickle / deepcopy / copy",
+            "for tpCN, extraction of the proposal law from the real _propose under a scripted tape, validation on the tape lattice, and comparison of the real acceptance factor with the Metropolis-Hastings ratio for every ordered grid pair; tape-lattice enumeration for hard walls and image-sum detailed balance for folds; scripted mixing variables honour their size (a proposal using several independently is reported); mode statistics also reach the kernel through pickle / deepcopy / copy; large ensembles (1500 x 32 walkers) are compared walker by walker with the kernel asked about that walker alone",
             "A: the real one-step RWM kernel is executed from every cell of 1-d (M=4,5,6; all 3^M landscapes) and 2-d (3x3, 4x3) lattices with every symbol of a symmetric innovation alphabet, for beta in {0.25,1}, every hard/periodic/reflective assignment and 1-2 clusters; "
             "pi_i P_ij = pi_j P_ji and pi P = pi are checked to 1e-12 on the resulting matrix (exact for RWM, whose correctness uses only the symmetry of the innovation law). "
             "B: for every parameter point (d<=3, K<=2, nu in {0.5,1,5,1e6}, integer-typed nu arrays/lists, three scale matrices, two mode centres, sigma in {0.1,0.5,0.99}) the affine scale-mixture model of the proposal is extracted from the code, replayed on the tape lattice "
@@ -21,41 +21,41 @@ CHECKS = {
             "exhaustive lattice enumeration of stored histories against a 60-digit decimal reference of the mixture formula",
             "Every history of a finite lattice (T<=3/4 iterations, all unequal batch-size tuples, temperatures in every order, evidence values in "
             "{-1e3..1e3}, log-likelihoods in {-1e6..1e6}, three target temperatures) is built on the real StateManager through its public API and "
-            "compared with a reference written from the formula; permutation invariance over all T! orders and the likelihood-shift law are checked on a fixed stride of them. Typed histories: one integer-valued history stored through every legal spelling of its entries (int64/int32/float32/read-only/strided/list batches x Python and numpy scalars, 0-d arrays for beta and logZ). Several live objects: three StateManagers of one shape alive together, every ordered query sequence of length 2-3. Error-state axis: deep-checked histories are recomputed under numpy error states warn / raise (a value may not change).",
+            "compared with a reference written from the formula; permutation invariance over all T! orders and the likelihood-shift law are checked on a fixed stride of them. Typed histories: one integer-valued history stored through every legal spelling of its entries (int64/int32/float32/read-only/strided/list batches x Python and numpy scalars, 0-d arrays for beta and logZ). Several live objects: three StateManagers of one shape alive together, every ordered query sequence of length 2-3. Error-state axis: deep-checked histories are recomputed under numpy error states warn / raise (a value may not change). A child process with an address-space limit just above its footprint may raise MemoryError but not return other values.",
             "Trusted: Python's decimal arithmetic at 60 digits; floating tolerance 64*eps*magnitude. Values outside the finite alphabets are not explored.",
             "DESIGN.md §4 C04"),
     "C05": ("model_checking",
             "explicit enumeration of reweighting transitions: synthetic history lattice x parameters on the real Reweighter, plus every reachable transition of deviation-bounded runs, against a reference MIS model",
             "One real Reweighter.run() transition is executed from every state of a finite lattice of histories x (n_particles, ess_ratio, ESS / volume-variation target) and from "
             "every reachable state of runs whose per-iteration random tape deviates in <=1 (quick) / <=2 (thorough) places from the default, over a covering array of the schedule-relevant options; "
-            "monotonicity, range, the ESS guarantee on every advance and the coherence of recorded beta/ESS/logZ/weights are checked on each transition. Also: a boundary-value family placing the ESS crossing (and beta_prev) inside the last BETA_TOLERANCE cell, every sequence of scripted batch types (depth 4/5) through ONE Reweighter instance, and a kernel-input coherence monitor (temperature/kernel/boundaries passed to the mutation kernel). Integer-typed log-likelihood pools are lattice points. A duo-session phase keeps TWO real samplers alive in one process and explores every interleaving of their iterations and read-only queries (depth 4/5) with the coherence monitor on both. Cross-configuration resumes (another particle count, ESS / volume-variation target, kernel, cadence) are monitored transition by transition.",
+            "monotonicity, range, the ESS guarantee on every advance and the coherence of recorded beta/ESS/logZ/weights are checked on each transition. Also: a boundary-value family placing the ESS crossing (and beta_prev) inside the last BETA_TOLERANCE cell, every sequence of scripted batch types (depth 4/5) through ONE Reweighter instance, and a kernel-input coherence monitor (temperature/kernel/boundaries passed to the mutation kernel). Integer-typed log-likelihood pools are lattice points. A duo-session phase keeps TWO real samplers alive in one process and explores every interleaving of their iterations and read-only queries (depth 4/5) with the coherence monitor on both. Cross-configuration resumes (another particle count, ESS / volume-variation target, kernel, cadence) are monitored transition by transition. Scale ladder: transitions from pools of 3.7e4-6.5e4 samples in golden / sorted / period-k orders; pools with finite sentinel log-likelihoods (-1e300); large pipeline scopes (512 x d=10, 160-iteration runs).",
             "Trusted: the float reference implementation of the mixture formula (cross-checked against the decimal one by C04). Run-level exploration branches over a finite tape alphabet, not over all real-valued draws.",
             "DESIGN.md §4 C05"),
     "C06": ("model_checking",
             "exhaustive enumeration of the random-offset partition (exact rational breakpoints) per (n,w) lattice point; all m^n multinomial answers",
             "Every cell of the exact partition of the uniform offset u0 and the doubles adjacent to every breakpoint are executed on the real "
             "systematic_resample for every (n,w) of a lattice (all compositions of 12 into <=4/5 parts, float-hostile families, in-/out-of-tolerance "
-            "sum perturbations); the multinomial path is decided by enumerating every answer of the scripted np.random.choice and comparing the recorded law. The same partition is also driven through the Resampler.run call site (exact zeros, in-tolerance deficits), and a session phase (one sampler through save/load/iterate sequences) checks that resampled particles always come from the current pool. The call-site partition is repeated at the smallest temperatures an annealing iteration can have (2^-14, 1e-5, 9.9e-5, 5e-324); systematic_resample is run with dyadic weights in every legal container / dtype / layout and every integer type for the size, at and next to every breakpoint, with a call-history oracle; duo sessions (two samplers with different schemes, every interleaving) and cross-configuration resumes are monitored by a call-site law monitor (pool order, floor/ceil copy counts w.r.t. the weights handed in). If the multinomial path does not call np.random.choice its law is decided through the uniform variates it consumes (partition of [0,1) by the cumulative weights, breakpoints, 0.0). Sessions include copying the live sampler (pickle / deepcopy) with a lockstep copy-versus-original iteration.",
+            "sum perturbations); the multinomial path is decided by enumerating every answer of the scripted np.random.choice and comparing the recorded law. The same partition is also driven through the Resampler.run call site (exact zeros, in-tolerance deficits), and a session phase (one sampler through save/load/iterate sequences) checks that resampled particles always come from the current pool. The call-site partition is repeated at the smallest temperatures an annealing iteration can have (2^-14, 1e-5, 9.9e-5, 5e-324); systematic_resample is run with dyadic weights in every legal container / dtype / layout and every integer type for the size, at and next to every breakpoint, with a call-history oracle; duo sessions (two samplers with different schemes, every interleaving) and cross-configuration resumes are monitored by a call-site law monitor (pool order, floor/ceil copy counts w.r.t. the weights handed in). If the multinomial path does not call np.random.choice its law is decided through the uniform variates it consumes (partition of [0,1) by the cumulative weights, breakpoints, 0.0). Sessions include copying the live sampler (pickle / deepcopy) with a lockstep copy-versus-original iteration. Scale ladder: 7e4-2e5 weights, n up to 2e5. Overlapping calls from two threads: every schedule with one preemption (call A interrupted before each of its library lines, call B complete).",
             "Trusted: the rational reference model (mc/refmodels/resample.py), numpy's own choice() implementing the multinomial law it is asked for; "
             "bounded to n*m<=700 (quick)/2500 (thorough).", "DESIGN.md §4 C06"),
     "C07": ("model_checking",
             "complete small-scope enumeration of accept masks / -inf masks / replacement answers on the real kernels and mutation step, plus a record-coherence monitor on every step boundary of deviation-bounded runs over a covering array",
             "All 2^6 accept-mask sequences (3 walkers x 2 steps) of both real kernels for every boundary/prior/blob/cluster-count variant, all -inf masks and replacement-index answers of the prior-sampling "
             "mutation (n<=4), and every step-boundary particle set, committed batch and posterior() return of every run in the deviation-bounded tree are checked row by row against pure fixtures "
-            "(x=T(u), logL=f(x), blob=b(x), u in the cube, whole-record moves, append-only history). A session phase drives one sampler object through every save/load/iterate sequence (depth 5/7 + longer roll-back patterns) with the monitors and an accessor oracle (flattened histories, posterior weights, evidence, trimming) after every operation; the session alphabet includes a complete run() on the object in whatever state it is and iterations aborted by a failure of the user's likelihood at its 1st/4th/11th evaluation (every sequence over {S,X1,X4,X11} to depth 3/4; an aborted iteration must leave the committed history unchanged). Fixture axes: scalar blob dtypes, blob shapes (two values, vector, string), numpy-scalar / 0-d / read-only likelihood returns, prior transforms returning a list, writing components by index, or handing back their argument; set-valued boundary collections. Duo sessions (two samplers with different options, every interleaving) and cross-configuration resumes (checkpoint written under options A resumed by a fresh sampler with options B) run under the same monitors. Also: a flat-topped likelihood (exactly tied accepted moves) with blobs, a likelihood whose value depends on the caller's numpy error state (run under over=raise), KeyboardInterrupt as a failure kind, pickle / deepcopy of the live sampler (original must not change, copy must behave like the original).",
+            "(x=T(u), logL=f(x), blob=b(x), u in the cube, whole-record moves, append-only history). A session phase drives one sampler object through every save/load/iterate sequence (depth 5/7 + longer roll-back patterns) with the monitors and an accessor oracle (flattened histories, posterior weights, evidence, trimming) after every operation; the session alphabet includes a complete run() on the object in whatever state it is and iterations aborted by a failure of the user's likelihood at its 1st/4th/11th evaluation (every sequence over {S,X1,X4,X11} to depth 3/4; an aborted iteration must leave the committed history unchanged). Fixture axes: scalar blob dtypes, blob shapes (two values, vector, string), numpy-scalar / 0-d / read-only likelihood returns, prior transforms returning a list, writing components by index, or handing back their argument; set-valued boundary collections. Duo sessions (two samplers with different options, every interleaving) and cross-configuration resumes (checkpoint written under options A resumed by a fresh sampler with options B) run under the same monitors. Also: a flat-topped likelihood (exactly tied accepted moves) with blobs, a likelihood whose value depends on the caller's numpy error state (run under over=raise), KeyboardInterrupt as a failure kind, pickle / deepcopy of the live sampler (original must not change, copy must behave like the original), a pseudo-marginal likelihood (blob = call number; logL and blob of a record must come from one call), large scopes (256-1500 particles, d up to 12, runs of 160 iterations).",
             "Trusted: purity/injectivity of the fixtures. Pipeline layer covers option combinations pairwise (quick) / 3-wise (thorough) and a two-symbol tape alphabet per iteration.",
             "DESIGN.md §4 C07"),
     "C08": ("fault_enumeration",
             "crash-point enumeration over the logged raw I/O operations of the real save path on an in-memory file system (every prefix x torn-write offsets), plus restore/resume exploration from every checkpoint of deviation-bounded runs",
             "The real save code runs over an in-memory file system that logs create/write/close/fsync/rename; for a first and an overwriting save in each configuration, every prefix of the log and every torn offset of the in-flight write "
             "is materialised as a crash image whose final name must hold nothing, the complete old or the complete new checkpoint; every checkpoint k written during real runs (clustering, blobs, pool object / real pool, kernel, resampler, progress bar, "
-            "picklable and un-picklable stderr) is loaded into a fresh sampler (bit-equal current+history, n_total) and resumed (numbering k+1, calls, schedule, immutable prefix, run post-conditions). Crash points are enumerated for every checkpoint written by run(save_every)/sample(save_every) themselves as well as for save_state(); every resumed run is also resumed with a 3x larger n_total, and late checkpoints with a smaller (already satisfied) one. Every distinct crash image of an overwriting save becomes the directory a further save is made into (must succeed, restore exactly, and be atomic itself); blobs may be NaN or vectors.",
+            "picklable and un-picklable stderr) is loaded into a fresh sampler (bit-equal current+history, n_total) and resumed (numbering k+1, calls, schedule, immutable prefix, run post-conditions). Crash points are enumerated for every checkpoint written by run(save_every)/sample(save_every) themselves as well as for save_state(); every resumed run is also resumed with a 3x larger n_total, and late checkpoints with a smaller (already satisfied) one. Every distinct crash image of an overwriting save becomes the directory a further save is made into (must succeed, restore exactly, and be atomic itself); blobs may be NaN or vectors; checkpoints of tens of MiB are saved, restored exactly, overwritten and resumed.",
             "Trusted: the process-crash model (completed writes persist, in-flight write torn, buffers lost; no power-loss reordering); I/O is intercepted at open/os/pathlib as resolved by tempest.core and tempest.state_manager.", "DESIGN.md §4 C08"),
     "C09": ("model_checking",
             "explicit-state search over all sequences of library operations up to a depth, each executed from two pre-seeds on the real global generator plus once under an auditing tape; triple-run reproducibility over a covering array",
             "All sequences (depth 2 quick / 3 thorough) over 19 public operations (mixture fits, hierarchical fit/predict, mode statistics, Student-t fit, trimming, resampling, the four pipeline steps, sample(), run(), posterior(resample), save, load) "
             "are executed from pre-seeds 101 and 202: the generator state and the next draws afterwards must differ, and no library frame may call np.random.seed when no Sampler random_state is configured; every configuration x random_state "
-            "is run three times in one process (back to back, and after disturbing the global stream) and must be bit-identical, different seeds must differ; inside clustering runs the generator state after every iteration must depend on the pre-seed. A seeding-discipline phase audits every np.random.seed / default_rng call made by library frames during runs with and without random_state, cluster cadences 1-3 and periodic checkpoints. No-replayed-innovations phases: on a seeded sampler whose stream the harness never re-seeds, every save/load/iterate/run session and every fresh resume from every checkpoint must start each iteration from a generator state never used before for a different history, and must not store the same batch twice; the seed lattice includes 0, 2^31 and 2^32-1. A seeded run that completes under numpy error state raise / warnings as errors / changed print options, or into an output directory pre-populated with stale temporary files and old checkpoints, must be the same run.",
+            "is run three times in one process (back to back, and after disturbing the global stream) and must be bit-identical, different seeds must differ; inside clustering runs the generator state after every iteration must depend on the pre-seed. A seeding-discipline phase audits every np.random.seed / default_rng call made by library frames during runs with and without random_state, cluster cadences 1-3 and periodic checkpoints. No-replayed-innovations phases: on a seeded sampler whose stream the harness never re-seeds, every save/load/iterate/run session and every fresh resume from every checkpoint must start each iteration from a generator state never used before for a different history, and must not store the same batch twice; the seed lattice includes 0, 2^31 and 2^32-1. A seeded run that completes under numpy error state raise / warnings as errors / changed print options, or into an output directory pre-populated with stale temporary files and old checkpoints, must be the same run; so must the same seeded run in fresh interpreter processes started with another PYTHONHASHSEED or with python -O / -OO; large rows put bootstrap samples of more than 2^15 points through the mode fits.",
             "Trusted: numpy's legacy global generator semantics. Seeding from the user's own Sampler random_state is treated as legitimate.", "DESIGN.md §4 C09"),
     "C10": ("model_checking",
             "paired exploration: every run of a tape-deviation tree is executed twice (log-likelihood f and f+c) under the same owned tape and the two executions are compared at every step boundary (commuting-diagram oracle)",
@@ -66,18 +66,18 @@ CHECKS = {
             "exhaustive enumeration of -inf mask sequences over the warm-up iterations (scripted prior draws and replacement answers) on the real Sampler.sample(), with a step-boundary monitor",
             "All sequences of zero-likelihood masks (m_1..m_W) in ({0,1}^n)^W for n in {2,3,4} and W in {1..4} warm-up iterations (W forced through ess_ratio), plus all replacement-index answers for small n, are executed through the real "
             "iteration loop: no -inf log-likelihood may be stored at any step boundary, each beta=0 batch's recorded logZ must lie within [min,max] of the per-batch log supported fractions seen so far (counted once), and for a constant-on-support "
-            "likelihood the first annealing iteration must jump to beta=1 with its evidence inside the same interval. Includes float32 likelihood / prior-transform variants, redrawn all -inf batches, and annealing iterations with Metropolis uniforms scripted to 0. Failure injection: the user's likelihood raises once at its j-th call of iteration t, for every (t<=W+1, j<=2n) x every mask sequence, and the iteration is retried on the same sampler (an Exception and a KeyboardInterrupt); constant-on-support likelihoods with a non-zero constant.",
+            "likelihood the first annealing iteration must jump to beta=1 with its evidence inside the same interval. Includes float32 likelihood / prior-transform variants, redrawn all -inf batches, and annealing iterations with Metropolis uniforms scripted to 0. Failure injection: the user's likelihood raises once at its j-th call of iteration t, for every (t<=W+1, j<=2n) x every mask sequence, and the iteration is retried on the same sampler (an Exception and a KeyboardInterrupt); constant-on-support likelihoods with a non-zero constant; large scopes (512 particles x 66 warm-up iterations) with the supported fractions observed at the likelihood.",
             "Trusted: the interval oracle accepts per-batch, pooled and harmonic-pooled estimators. The statistical half of the property (convergence of the final evidence) is outside this family (see C02).", "DESIGN.md §4 C11"),
     "C12": ("model_checking",
             "terminal-state exploration of deviation-bounded runs over a covering array; exhaustive product of posterior() options x trimming parameters x scripted resampling offsets on every terminal state, against the reference MIS model",
             "Every terminal state reached by the real run() with <=1 tape deviation per configuration (pairwise/3-wise covering array of kernel, resampler, clustering, metric, evaluation, boundary, n_total, ess_ratio, target) "
             "is checked for |1-beta|<1e-4, reference ESS>=n_total and evidence()==reference logZ(1); then all 16 flag combinations of posterior() x 4 trimming settings x scripted offsets are executed and checked for arity, "
-            "equal lengths, normalised/uniform weights and row-by-row alignment of x, logL, blob and log-weight with the stored particles. Plus a termination-threshold phase (n_total just above every posterior ESS the run passes through), resume with a larger n_total, a session phase for posterior()/evidence() after save/load/iterate sequences, duo sessions (two samplers interleaved) and cross-configuration resumes with a larger n_total.",
+            "equal lengths, normalised/uniform weights and row-by-row alignment of x, logL, blob and log-weight with the stored particles. Plus a termination-threshold phase (n_total just above every posterior ESS the run passes through), resume with a larger n_total, a session phase for posterior()/evidence() after save/load/iterate sequences, duo sessions (two samplers interleaved) and cross-configuration resumes with a larger n_total; termination thresholds taken at the end of long runs (table of 3e5 entries quick, 2.3e6 thorough).",
             "Trusted: float reference MIS model, pure fixtures. The per-configuration run cap is reported in evidence when hit.", "DESIGN.md §4 C12"),
     "C13": ("model_checking",
             "schedule enumeration: every permutation of the evaluation/completion order of a likelihood batch at every pool.map call of a run (bounded number of deviating calls), differential comparison of step-boundary state digests across evaluation modes under one tape",
             "For one owned random tape the real sampler is run scalar, vectorised, through ordered / lazy / out-of-order pool objects (all 3! / 4! batch permutations at each map call, <=1 deviating call quick, <=2 thorough) "
-            "and through real worker pools of size 1-3; after every pipeline step the complete state digest must equal the serial run's, the final evidence must be bit-identical and `calls` must equal the instrumented evaluation counter. The mode lattice includes bound log_likelihood_args/kwargs, a likelihood with a thin support (discarded warm-up batches) and a corner target with 1-3 walkers; several samplers sharing one plain likelihood function (different bound arguments) are run serially and with real pools inside one process; a concurrent.futures-style executor pool (submit -> Future, in-order map) is one of the pool objects.",
+            "and through real worker pools of size 1-3; after every pipeline step the complete state digest must equal the serial run's, the final evidence must be bit-identical and `calls` must equal the instrumented evaluation counter. The mode lattice includes bound log_likelihood_args/kwargs, a likelihood with a thin support (discarded warm-up batches) and a corner target with 1-3 walkers; several samplers sharing one plain likelihood function (different bound arguments) are run serially and with real pools inside one process; a concurrent.futures-style executor pool (submit -> Future, in-order map) and one returning numpy arrays are among the pool objects; evaluations are counted across worker processes (batch sizes not multiples of the worker count); a 1500-particle d=12 configuration is compared across modes.",
             "Trusted: purity of the fixture likelihood. Real pool internals are observed, not scheduled.", "DESIGN.md §4 C13"),
     "C14": ("model_checking",
             "environment-answer enumeration with a scripted clusterer (all predicted-label vectors incl. missing labels) through the real Trainer/Resampler/kernel; real-clusterer pool lattice x systematic offsets; cadence x warm-up x cap x resume-from-every-checkpoint exploration with a kernel-entry monitor",
@@ -89,35 +89,35 @@ CHECKS = {
             "exhaustive enumeration of a deterministic data lattice x weight lattice x model options on the real mixture / hierarchical models under an owned tape, with invariants and a replication-equivalence differential oracle",
             "Every (dimension, size, layout incl. degenerate and duplicated points, separation, affine placement) x weight pattern (uniform, integer, dominant, geometric, zeros on a subset / a whole blob) x covariance type {full,diag} x components {1,2,3} "
             "is fitted by the real GaussianMixture: weights a probability vector, covariances symmetric PSD, non-negligible components inside the data bounding box, labels in range, finite BIC, integer weights equivalent to replicated points; "
-            "the hierarchical model (normalize on/off, 3 threshold modifiers, both ways core.py sets the cap) must label every training point once in [0,K), respect the cap and the minimum child size, and predict labels / row-stochastic probabilities for training and arbitrary query points. Integer options are also given as numpy integers; one clusterer object is refitted on every ordered pair (triple) of data sets of different dimension / size and compared with a fresh object; data and sample weights are presented in every legal container / dtype / layout; the object may pass through pickle / deepcopy / copy between fits; every query must get the same label alone, in a pair and inside the batch.",
+            "the hierarchical model (normalize on/off, 3 threshold modifiers, both ways core.py sets the cap) must label every training point once in [0,K), respect the cap and the minimum child size, and predict labels / row-stochastic probabilities for training and arbitrary query points. Integer options are also given as numpy integers; one clusterer object is refitted on every ordered pair (triple) of data sets of different dimension / size and compared with a fresh object; data and sample weights are presented in every legal container / dtype / layout; the object may pass through pickle / deepcopy / copy between fits; every query must get the same label alone, in a pair and inside the batch; 12-30 well separated blobs under every cap; query batches of thousands of rows versus batches of 257.",
             "Trusted: scipy quantiles for the data grids. Known findings (un-normalised data with spread ~1e3) are listed in known_findings.json and printed as KNOWN-FINDING.", "DESIGN.md §4 C15"),
     "C16": ("exploration",
             "exhaustive enumeration of a structured-double lattice x all strict/periodic/reflective coordinate assignments against an exact rational fold",
             "Every value of a ~1.3k-point lattice of doubles (signed zeros, subnormals, every binade edge 2^-60..2^70 and up to 2^1023 with ulp neighbours, integers/halves/quarters with ulp neighbours, 2^53 and 2^63 edges, 1e300) "
             "is placed in every coordinate of 1-D (d<=3) and 2-D arrays under every one of the 3^d role assignments; results are compared with the exact rational mod-1 / triangle fold, idempotence, untouched strict coordinates, "
-            "unmodified input and the exact truth table of check_bounds. A kernel-usage phase runs the real kernels over every ordered pair of boundary configurations in one process (3 walkers, expected positions from first principles). The index collections are given in every legal spelling (tuple, set, frozenset, dict keys, numpy-integer lists, int32/uint8 arrays, reversed / repeated lists) and the point arrays in every dtype / layout that carries a dyadic sub-lattice exactly; a d=8 phase runs pairs of index-array configurations under abbreviating numpy print options.",
+            "unmodified input and the exact truth table of check_bounds. A kernel-usage phase runs the real kernels over every ordered pair of boundary configurations in one process (3 walkers, expected positions from first principles). The index collections are given in every legal spelling (tuple, set, frozenset, dict keys, numpy-integer lists, int32/uint8 arrays, reversed / repeated lists) and the point arrays in every dtype / layout that carries a dyadic sub-lattice exactly; a d=8 phase runs pairs of index-array configurations under abbreviating numpy print options; ensembles of 7e4-2e5 points must be handled row by row like batches of 509.",
             "Trusted: Python Fraction arithmetic. Doubles outside the lattice are represented by their binade/neighbourhood class only. The 'symmetric proposal o fold is symmetric' consequence is decided under C03.", "DESIGN.md §4 C16"),
     "C17": ("model_checking",
             "explicit-state exploration of all public-operation sequences up to a depth on the real StateManager next to a deep-copy reference model, with np.shares_memory and caller-side overwrites after every accessor; twin-run differential oracle at sampler level",
             "All sequences over 22 public operations (setters, commit, every getter, results, weights, export, import, save/load) up to depth 4 (quick) / 5 (thorough) are replayed on a fresh real object; after every accessor the returned arrays must not share memory "
             "with any internal array and are overwritten by the caller, after every operation internal state and cache must equal the deep-copy model; commits must grow each recorded history by exactly one batch. Sampler layer: all accessor sequences (depth 2/3) between real iterations, "
-            "with overwrites, must leave later iterations bit-identical to an untouched twin run. 'Internal arrays' are all ndarrays reachable from the objects' attributes (any cache); the alphabets include every posterior() option combination save_state(exclude=...), setters fed read-only views of caller-owned buffers, complete iteration records (commit-commit of identical batches) and pickle / deepcopy of the live sampler.",
+            "with overwrites, must leave later iterations bit-identical to an untouched twin run. 'Internal arrays' are all ndarrays reachable from the objects' attributes (any cache); the alphabets include every posterior() option combination save_state(exclude=...), setters fed read-only views of caller-owned buffers, complete iteration records (commit-commit of identical batches), pickle / deepcopy of the live sampler, and histories of 31-257 (thorough 1024) committed batches around every power of two.",
             "Trusted: the reference model (dict/list deep copies). copy=False setters are outside the property.", "DESIGN.md §4 C17"),
     "C18": ("model_checking",
             "exhaustive one-factor-at-a-time enumeration of invalid values over 4 base configurations; covering-array exploration (pairwise / 3-wise) of the constructor option product with complete real runs and delta-minimisation of failures",
             "All listed constraint violations x 4 valid bases must be rejected by the constructor with zero likelihood/prior calls; every row of a strength-2 (quick) / strength-3 (thorough) covering array over 14 constructor options "
-            "(incl. pool in {None,1,2,object}, save_every on an in-memory file system, cluster cadence and caps) must construct, run to completion and satisfy the run post-conditions. Valid rows that write checkpoints are also resumed by a fresh sampler; the valid lattice includes three targets, three particle counts and two tapes; boundary index sequences are given as lists, tuples and empty sequences; every valid row is used again after run() (one more sample(), a further run() with a larger target). Option spellings: each numeric / boolean option of three valid bases given as another scalar type with the same value (numpy ints/floats/bools, 0-d arrays, int for float and float for int) must either be rejected by the constructor before any likelihood call or give the same run as the plain spelling. Valid rows include duplicate boundary indices and likelihood / prior transform given as bound methods of an unreferenced object or functools.partial; every stored particle of a completed run lies in the unit cube.",
+            "(incl. pool in {None,1,2,object}, save_every on an in-memory file system, cluster cadence and caps) must construct, run to completion and satisfy the run post-conditions. Valid rows that write checkpoints are also resumed by a fresh sampler; the valid lattice includes three targets, three particle counts and two tapes; boundary index sequences are given as lists, tuples and empty sequences; every valid row is used again after run() (one more sample(), a further run() with a larger target). Option spellings: each numeric / boolean option of three valid bases given as another scalar type with the same value (numpy ints/floats/bools, 0-d arrays, int for float and float for int) must either be rejected by the constructor before any likelihood call or give the same run as the plain spelling. Valid rows include duplicate boundary indices and likelihood / prior transform given as bound methods of an unreferenced object or functools.partial; every stored particle of a completed run lies in the unit cube; legal values far from the small ones (ess_ratio=120, 600 particles).",
             "Trusted: covering-array generator (its tuple coverage is measured and reported). Higher-order interactions than the stated strength are not covered.", "DESIGN.md §4 C18"),
     "C19": ("exploration",
             "exhaustive enumeration of a deterministic data lattice x transformation-group lattice (scalings, translations, all coordinate permutations) with the untransformed fit as reference",
             "Every data set of a deterministic lattice (d in 1..8, n in 4d..2000, Gaussian / t_1,2,5,30 / skewed / contaminated quantile grids, three correlations) is fitted by the real fit_mvstud and checked for a finite "
             "in-box location, symmetric positive-definite scale and nu in (0,inf]; each is refitted under every transformation of the group lattice and compared with the transformed reference fit; large t-grids must recover "
-            "(location, scale, nu); non-finite nu must be replaced by the fallback in ModeStatistics and never reach the kernel. Call histories: every sequence (length 2-3) of three data sets in disjoint boxes through fit_mvstud / from_global / from_particles (with empty clusters), via one refilled buffer or fresh arrays; data arrays in every dtype / layout that carries them exactly; data laws with exact ties in one coordinate; pipeline sessions with copies of the live sampler.",
+            "(location, scale, nu); non-finite nu must be replaced by the fallback in ModeStatistics and never reach the kernel. Call histories: every sequence (length 2-3) of three data sets in disjoint boxes through fit_mvstud / from_global / from_particles (with empty clusters), via one refilled buffer or fresh arrays; data arrays in every dtype / layout that carries them exactly; data laws with exact ties in one coordinate; pipeline sessions with copies of the live sampler; data sets of 6.6e4-8e4 rows; nearly collinear clouds in the recovery phase.",
             "Trusted: scipy quantile functions used to build the grids. Tolerance 1e-4 relative for equivariance; recovery of nu accepted in either nu or 1/nu metric (nearly Gaussian tails are weakly identified).", "DESIGN.md §4 C19"),
     "C20": ("exploration",
             "exhaustive enumeration of all weight vectors over a dynamic-range alphabet (length<=5) and structured long vectors against rational references; affine-map lattice for the volume metric",
             "All 37k weight vectors over {0,1e-300,1e-12,1e-3,1,3,1e8,1e300} of length 1-5 (plus long uniform/geometric/dominant/tempering/tied vectors up to 1e4) are checked for ESS in [1,N], exact value, scale and permutation invariance; "
-            "the trimming contract (upper set, order, alignment via identity samples, ESS fraction, normalisation) is checked for 4 ESS fractions x 3 bin counts; the volume metric is checked for non-negativity, weight-scale and affine invariance on a lattice of maps with condition number up to 1e6. Every trim_weights call made by real runs is checked against the contract (call-site phase); a session phase checks posterior(trim) against the current weights after save/load/iterate sequences. Weights / samples are also presented in every legal dtype / layout, every call is repeated after a call with other arguments, and arrays returned earlier are held and must not change; the affine maps include uniform rescalings to extreme units (1e-150..1e60); values may not depend on the caller's numpy error state.",
+            "the trimming contract (upper set, order, alignment via identity samples, ESS fraction, normalisation) is checked for 4 ESS fractions x 3 bin counts; the volume metric is checked for non-negativity, weight-scale and affine invariance on a lattice of maps with condition number up to 1e6. Every trim_weights call made by real runs is checked against the contract (call-site phase); a session phase checks posterior(trim) against the current weights after save/load/iterate sequences. Weights / samples are also presented in every legal dtype / layout, every call is repeated after a call with other arguments, and arrays returned earlier are held and must not change; the affine maps include uniform rescalings to extreme units (1e-150..1e60); values may not depend on the caller's numpy error state.; 10000 x 16 arrays; overlapping calls from two threads with one preemption",
             "Trusted: Fraction reference for ESS. Inputs where the metric's own regularisation/clip branches are active are outside the invariance premise and are counted in evidence.", "DESIGN.md §4 C20"),
 }
 
